@@ -905,24 +905,33 @@ func RunJavascript(ctx *Context, bs *Bindings, props map[string]interface{}, src
 		timeout = SystemParameters.DefaultJavascriptTimeout
 	}
 
-	if SystemParameters.JavascriptTimeouts && 0 <= int64(timeout) {
-		start := time.Now()
-		Log(DEBUG, ctx, "core.RunJavascript", "timeout", timeout, "start", start)
-		defer func() {
-			duration := time.Since(start)
-			if caught := recover(); caught != nil {
-				if caught == Halt {
-					Log(WARN, ctx, "core.RunJavascript", "timedout", timeout,
-						"after", duration, "time", time.Now())
-					// Report the timeout; otherwise the caller
-					// sees (nil, nil), which looks like success.
-					result = nil
-					problem = fmt.Errorf("Javascript timed out after %v", timeout)
-					return
-				}
-				panic(caught) // Something else happened, so repanic!
+	start := time.Now()
+	defer func() {
+		duration := time.Since(start)
+		if caught := recover(); caught != nil {
+			if caught == Halt {
+				Log(WARN, ctx, "core.RunJavascript", "timedout", timeout,
+					"after", duration, "time", time.Now())
+				// Report the timeout; otherwise the caller
+				// sees (nil, nil), which looks like success.
+				result = nil
+				problem = fmt.Errorf("Javascript timed out after %v", timeout)
+				return
 			}
-		}()
+			// Something else happened.  It happened in (or
+			// under) the script, so it is the script's failure:
+			// say "throw {toString: function(){ throw 1 }}"
+			// makes the interpreter panic instead of returning
+			// an error.  Repanicking here took the caller (or,
+			// from an action's goroutine, the process) down.
+			Log(ERROR, ctx, "core.RunJavascript", "panic", fmt.Sprint(caught))
+			result = nil
+			problem = fmt.Errorf("Javascript failed: %v", caught)
+		}
+	}()
+
+	if SystemParameters.JavascriptTimeouts && 0 <= int64(timeout) {
+		Log(DEBUG, ctx, "core.RunJavascript", "timeout", timeout, "start", start)
 		// Buffered because after a timeout the watchdog goroutine
 		// (below) is gone, and then nobody would ever receive.
 		watchdogCleanup := make(chan bool, 1)
